@@ -122,6 +122,7 @@ def run_uniform(shard, rec, B):
     if len(cls2) != 720:
         rec.inconclusive("oracle enumerated %d symplectic classes" % len(cls2))
     ccount = np.zeros(720, dtype=np.int64)
+    ecount = np.zeros(720 * 16, dtype=np.int64)
     scount = np.zeros(16, dtype=np.int64)
     bitc = np.zeros(4, dtype=np.int64)
     bad = 0
@@ -137,6 +138,7 @@ def run_uniform(shard, rec, B):
         ccount[i] += 1
         s = int((p[0] // 2) * 8 + (p[1] // 2) * 4 + (p[2] // 2) * 2 + (p[3] // 2))
         scount[s] += 1
+        ecount[i * 16 + s] += 1
         bitc += p // 2
         if len(keys) < 200000:
             keys.add(i * 16 + s)
@@ -146,6 +148,10 @@ def run_uniform(shard, rec, B):
     rec.check("uniform.n2.coverage", seen == 720 and bad == 0, ["n2.coverage", n2], True, expected="all 720 classes", observed={"seen": seen, "invalid": bad})
     rec.check("uniform.n2.classes", tail > stats.ALPHA, ["n2.classes", n2], True, expected="chi-square tail > 1e-9 over 720 classes",
               observed={"chi2": stat, "dof": dof, "tail": tail, "min": int(ccount.min()), "max": int(ccount.max()), "n": n2})
+    if n2 >= 11520 * 20:     # enough samples for the whole group: chi-square over all 11520 elements
+        stat, dof, tail = stats.chi2_tail(list(ecount))
+        rec.check("uniform.n2.elements", tail > stats.ALPHA and int((ecount > 0).sum()) == 11520, ["n2.elements", n2], True,
+                  expected="uniform over the 11520 elements of the two-qubit Clifford group", observed={"chi2": stat, "dof": dof, "tail": tail, "seen": int((ecount > 0).sum())})
     stat, dof, tail = stats.chi2_tail(list(scount))
     rec.check("uniform.n2.signs", tail > stats.ALPHA, ["n2.signs", n2], True, observed={"counts": scount.tolist(), "chi2": stat, "tail": tail})
     for k in range(4):
